@@ -321,6 +321,10 @@ def run(chk):
                 why = "after %s the handle does not point at the second destination" % op
         if why:
             chk.violate({"kind": "property", "case": lib.show_case(c), "impl": i[:1500], "explanation": why})
+    # the path functions the operations rely on (path.Join, filepath.Base, filepath.Dir) against their model PATH.v, whose
+    # facts about plain names (C20_plain_name_is_an_entry_of_its_directory) the upload model is built on
+    import pathgen
+    pathgen.stream(chk, ["pjoin", "pbase", "pdir"])
     chk.extra["history_scenarios"] = len(hist)
     chk.extra["scenarios"] = len(scs)
     chk.trusted.append("the OS file system (ext4/overlay under /var/tmp) and inotify as the observer of the order of appearance")
